@@ -309,7 +309,11 @@ func runC11(c *core.Ctx) {
 		// the discard return: nil return without forwarding; must be exactly when sendCount > 0 && type == data && len == 0
 		fwd := firstInstr(cl, func(in ssa.Instruction) bool {
 			c2, ok := in.(*ssa.Call)
-			return ok && !c2.Call.IsInvoke() && c2.Call.StaticCallee() == nil
+			if !ok || c2.Call.IsInvoke() || c2.Call.StaticCallee() != nil {
+				return false
+			}
+			_, isBuiltin := c2.Call.Value.(*ssa.Builtin)
+			return !isBuiltin && len(c2.Call.Args) == 1 && core.TypeName(c2.Call.Args[0].Type()) == "wsync.Operation"
 		})
 		if fwd == nil {
 			c.Bad("R11.3", core.FnName(cl), "forward", cl.Pos(), "the cleaner does not forward operations")
@@ -494,6 +498,7 @@ func runC08(c *core.Ctx) {
 	c.Rule("R08.2", "same weak and strong hash functions on both sides")
 	c.Rule("R08.3", "re-synchronisation after a match")
 	c.Rule("R08.4", "library completeness")
+	ruleShortSizeIsShort(c, "R04.5")
 	// ---- R08.1
 	mow := c.P.Fn("pwr", "makeOpsWriter")
 	if mow == nil || len(mow.AnonFuncs) != 1 {
